@@ -174,6 +174,7 @@ fn run(root: PathBuf, out_dir: PathBuf, overrides: HashMap<String, PathBuf>) -> 
             s.push_str(&format!("import Inkayaku.Gen.Rs.{}\n", d));
         }
         s.push_str("\nset_option linter.unusedVariables false\n\nnamespace Inkayaku.Rs\n\n");
+        if let Some((_, pre)) = targets::MODULE_PREAMBLE.iter().find(|(m, _)| m == name) { s.push_str(pre); s.push_str("\n\n"); }
         s.push_str(&m.items.join("\n\n"));
         s.push_str("\n\nend Inkayaku.Rs\n");
         write(&out_dir.join(format!("{}.lean", name)), &s)?;
@@ -353,6 +354,19 @@ fn new_tr<'w>(world: &'w World, t: &'w Target, lean_fn: String) -> FnTr<'w> {
     }
 }
 
+/// the packed form (tuple of the primitive fields, `u64` = `UInt64`) of a registered plain-data struct
+fn packed_of(world: &World, n: &str) -> Res<RTy> {
+    let si = world.structs.get(n).ok_or_else(|| format!("struct `{}` is not registered", n))?;
+    let mut tys = vec![];
+    for (f, fty) in &si.fields {
+        let t = resolve_type_s(world, fty, Some(n), &HashMap::new(), true).map_err(|m| format!("field `{}.{}`: {}", n, f, m))?;
+        if !matches!(t, RTy::Int(_) | RTy::Bool | RTy::Char | RTy::U64) { return Err(format!("field `{}.{}`: only primitive fields are supported in a packed struct value", n, f)); }
+        tys.push(t);
+    }
+    if tys.is_empty() { return Err(format!("struct `{}` has no fields", n)); }
+    Ok(RTy::Packed(n.to_string(), tys))
+}
+
 fn lean_name(t: &Target) -> String {
     match t.container.ns() { Some(ns) => format!("{}.{}", ns, t.name), None => t.name.to_string() }
 }
@@ -380,7 +394,9 @@ fn translate_target(world: &mut World, t: &'static Target) -> Res<(String, HashS
                     },
                     syn::Fields::Unnamed(uf) => for (k, f) in uf.unnamed.iter().enumerate() {
                         let ty = resolve_type(world, &f.ty, None).map_err(|m| format!("{}:{}: enum {}::{}: {}", path, f.span().start().line, t.name, v.ident, m))?;
-                        match &ty { RTy::Int(_) | RTy::Bool | RTy::Char | RTy::Str => {} RTy::Enum(n) => { deps.insert(world.enums[n].module.clone()); } _ => return Err(format!("{}:{}: enum {}::{}: unsupported field type", path, f.span().start().line, t.name, v.ident)) }
+                        // a field of a plain-data struct type (`MoveIsNotValid(Move)`): the packed value (tuple of its fields, `u64` = `UInt64`)
+                        let ty = match ty { RTy::Struct(n) | RTy::Flat(n) => packed_of(world, &n).map_err(|m| format!("{}:{}: enum {}::{}: {}", path, f.span().start().line, t.name, v.ident, m))?, t => t };
+                        match &ty { RTy::Int(_) | RTy::Bool | RTy::Char | RTy::Str | RTy::Packed(_, _) => {} RTy::Enum(n) => { deps.insert(world.enums[n].module.clone()); } _ => return Err(format!("{}:{}: enum {}::{}: unsupported field type", path, f.span().start().line, t.name, v.ident)) }
                         fields.push((format!("_{}", k), ty));
                     },
                 }
@@ -642,7 +658,11 @@ fn translate_fn(world: &World, t: &'static Target, sig: &syn::Signature, block: 
                         if bad.is_none() && (matches!(ty, RTy::Struct(_)) || is_packed_list(&ty)) && matches!(t.what, What::Fn { .. }) { is_inout = true; } else { bad = Some("`&mut` parameter".into()); }
                     }
                 }
-                if bad.is_none() && matches!(ty, RTy::VecFn(_) | RTy::VecList(_) | RTy::Unit) && !is_packed_list(&ty) { bad = Some(tr.err(a, "unsupported parameter type")); }
+                // a slice / array / Vec parameter of primitives (or of such lists, or of strings) in list mode: a list (indexing is bounds-checked)
+                fn listify(t: RTy) -> RTy { match t { RTy::VecFn(el) | RTy::VecList(el) => RTy::VecList(Box::new(listify(*el))), t => t } }
+                fn prim_list(t: &RTy) -> bool { match t { RTy::VecList(el) => matches!(**el, RTy::Int(_) | RTy::U64 | RTy::Bool | RTy::Char | RTy::Str) || prim_list(el), _ => false } }
+                let ty = if bad.is_none() && !is_inout && matches!(t.what, What::Fn { vec_list: true, .. }) && matches!(ty, RTy::VecFn(_) | RTy::VecList(_)) && !is_packed_list(&ty) && prim_list(&listify(ty.clone())) { listify(ty) } else { ty };
+                if bad.is_none() && matches!(ty, RTy::VecFn(_) | RTy::VecList(_) | RTy::Unit) && !is_packed_list(&ty) && !prim_list(&ty) { bad = Some(tr.err(a, "unsupported parameter type")); }
                 if let Some(m) = bad {
                     tr.rust_params.push((name.clone(), RTy::Unit));
                     tr.poisoned.push((name.clone(), m));
